@@ -7,6 +7,7 @@ import (
 	"io"
 	"os"
 	"sort"
+	"strings"
 	"time"
 
 	"github.com/mit-pdos/go-nfsd/fh"
@@ -100,7 +101,7 @@ func (s *Srv) timeout() time.Duration {
 	if s.Timeout > 0 {
 		return s.Timeout
 	}
-	return 10 * time.Second
+	return 10*time.Second + ExecTimeout
 }
 
 // ---------------------------------------------------------------------------
@@ -180,6 +181,7 @@ type Dump struct {
 	OK   bool   `json:"ok"`
 	Err  string `json:"err"`
 	Objs []DObj `json:"objs"`
+	Dead bool   `json:"dead"` // a call of the walk did not return
 }
 
 const dumpFullLimit = 4 << 20 // files up to this size are read completely
@@ -226,11 +228,18 @@ func DumpAPIx(api API, who string, hint Extents) (d *Dump) {
 			d.OK = false
 			d.Err = fmt.Sprintf(f, a...)
 		}
+		if strings.Contains(d.Err, "TIMEOUT") || strings.Contains(d.Err, "PANIC") {
+			d.Dead = true // the instance no longer answers: stop walking
+		}
 	}
 	var walk func(path []string, fh string, depth int)
 	walk = func(path []string, fh string, depth int) {
+		if d.Dead {
+			return
+		}
 		if depth > 64 || len(d.Objs) > 100000 {
 			fail("tree too deep/large at %v", path)
+			d.Dead = true // a cycle or a runaway tree: stop walking
 			return
 		}
 		g := NewCall("GETATTR")
@@ -306,7 +315,7 @@ func DumpAPIx(api API, who string, hint Extents) (d *Dump) {
 			var kids []ch
 			cookie := 0
 			seen := map[string]bool{}
-			for page := 0; ; page++ {
+			for page := 0; !d.Dead; page++ {
 				if page > 100000 {
 					fail("readdirplus %v does not end", path)
 					break
@@ -322,6 +331,9 @@ func DumpAPIx(api API, who string, hint Extents) (d *Dump) {
 					break
 				}
 				for _, e := range r.Ents {
+					if d.Dead {
+						break
+					}
 					cookie = e.Cookie
 					if e.Name == "." || e.Name == ".." {
 						continue
